@@ -414,12 +414,14 @@ class Parser:
                     raise InsufficientTokens()
                 self.main_loop()
 
-            elements: List[Element] = []
+            elements: List[Union[Element, Connection]] = []
 
             while self.get_stack_length() > depth:
                 con = self.pop_stack()
-                if not isinstance(con, Element):
-                    raise TypeError(f"Expected an Element instead of {con=}")
+                if not (isinstance(con, Element) or isinstance(con, Connection)):
+                    raise TypeError(
+                        f"Expected an Element or a Connection instead of {con=}"
+                    )
 
                 elements.insert(0, con)
 
